@@ -88,6 +88,20 @@ impl<F: FixedChannelRegion> FixedChannelPlan<F> {
     }
 }
 
+#[cfg(feature = "verif-hooks")]
+impl<F: FixedChannelRegion> FixedChannelPlan<F> {
+    pub(crate) fn verif_snapshot(&self) -> crate::verif::RegionSnapshot {
+        let mut channel_mask = [0u8; 9];
+        channel_mask.copy_from_slice(self.channel_mask.as_ref());
+        crate::verif::RegionSnapshot {
+            fixed_plan: true,
+            channel_mask,
+            channels: [None; 16],
+            join_bias: self.join_channels.verif_snapshot(),
+        }
+    }
+}
+
 pub(crate) trait FixedChannelRegion: ChannelRegion {
     fn uplink_channels() -> &'static [u32; 72];
     fn downlink_channels() -> &'static [u32; 8];
